@@ -275,6 +275,29 @@ def run(chk):
     fixed += [(a + b) for a in TOKENS[:30] for b in TOKENS[:30]]
     fixed += int_literals() + unterminated()
     fixed += [b"1\x00 2", b"\x00", b'"a\x00b"', b"1 /* \x00 */ 2", b"dup\x00dup", b'"%( \x00 %)"']
+    # over-long and over-deep texts: around the generated parser's stack limit (10000) and well beyond it
+    for n in (2000, 9990, 9998, 9999, 10000, 10001, 20000):
+        fixed.append(b"1 " * n)
+    for n in (500, 3000, 9999, 10001, 15000):
+        fixed += [b"(" * n + b"1" + b")" * n, b"[" * n + b"]" * n, b"(" * n, b"1 " + b"(1, " * n + b"2" + b")" * n]
+    def nest(kind, n):
+        if kind == "sub": return "?(" * n + ")" * n
+        if kind == "block": return "{" * n + "}" * n
+        if kind == "if": return "if 1 then " * n + "2" + " else 3" * n
+        if kind == "or": return "(1 || " * n + "2" + ")" * n
+        if kind == "infix": return "(1 == " * n + "1" + ")" * n
+        if kind == "scope": return "1 " + "(|A| A " * n + ")" * n
+        if kind == "let": return "let A := (" * n + "1" + "); A" * n
+        if kind == "apply": return "{" * n + "1" + "} apply" * n
+        t = "1"
+        for _ in range(n):
+            t = '"%( ' + t + ' %)"'
+        return t
+    for kind in ("sub", "block", "if", "or", "infix", "scope", "let", "apply", "splice"):
+        for n in (30, 95, 105, 240, 340, 520, 1100, 2500):
+            fixed.append(nest(kind, n).encode())
+    fixed += [b'"%( ' + b"(" * 12000 + b"1" + b")" * 12000 + b' %)"', b"1 " * 9000 + b'"%( ' + b"2 " * 9000 + b' %)"', b"{" * 6000 + b"}" * 6000, b"1 drop " * 6000 + b"1",
+              b"let A := " * 4000 + b"1" + b" ;" * 4000, b"-" * 20000 + b"1", b"1" * 30000, b'"' + b"a" * 100000 + b'"', b"/*" + b"x" * 100000 + b"*/ 1", b"?" * 10000, b"1 " + b"*" * 20000]
     jobs = [("fixed", 1, fixed[i:i + 200]) for i in range(0, len(fixed), 200)]
     nm = 30000 if quick else 600000
     jobs += [("mutants", chk.seed * 6700417 + i, 500) for i in range(nm // 500)]
